@@ -32,8 +32,8 @@ assert np.finfo(LD).nmant >= 63, "long double is not wider than double here"
 
 def budget(tier):
     if tier == "quick":
-        return dict(max_examples=3000, workers=4, time_s=150, min_cases=500)
-    return dict(max_examples=200000, workers=16, time_s=1200, min_cases=1000)
+        return dict(max_examples=8000, workers=8, time_s=150, min_cases=1500)
+    return dict(max_examples=600000, workers=16, time_s=1200, min_cases=3000)
 
 
 # ------------------------------------------------------------------ generator
